@@ -52,6 +52,13 @@ def spec(tier):
             mk(f"timing_oc{int(oc)}_t{t2}",
                dict(d1a=I(1, 3), d1b=I(1, 3), d2a=I(1, 3), d3a=I(1, 3), sus_at=I(-1, K - 1)),
                overcommit=oc, t2=t2, r1=25, m2=(12 if oc else 3))
+    # overlapping write-outs
+    obs.append(CH(name="two_suspensions", harness="c03.conserve_two_suspensions",
+                  sym=dict(ramA=I(1, 70), ramB=I(1, 70), cpuA=I(1, 3), cpuB=I(1, 3), dA=I(1, 2), dB=I(1, 2), dC=I(1, 4)),
+                  fixed=dict(cap_cpu=8, cap_ram=200, K=8), timeout=900))
+    for w in ("both_suspending", "suspending_only", "idle_end"):
+        obs.append(CH(name=f"twin_two_{w}", harness="c03.conserve_two_suspensions", sym=dict(ramA=I(1, 70), ramB=I(1, 70), dA=I(1, 2), dB=I(1, 2), dC=I(1, 4)),
+                      fixed=dict(cap_cpu=8, cap_ram=200, cpuA=1, cpuB=2, K=8, want=w), timeout=90, expect="violate", group="twins2"))
     # reachability twins
     for want, fixed in (("rejected", {}), ("accepted2", {}), ("suspended", dict(sus_at=1)),
                         ("fail", {}), ("ok", {}), ("bad_size", {})):
